@@ -167,7 +167,12 @@ func C10(c *mc.Ctx) {
 			for _, perm := range permutations(len(ws)) {
 				resName := base.vnames
 				for ri, res := range base.variants {
-					for _, reads := range []string{"none", "before-each", "all-first"} {
+					for _, reads := range []string{"none", "before-each", "all-first", "failed-tx:a", "failed-tx:ab", "failed-tx:b", "failed-tx:bal"} {
+						// failed-tx:<t>: the block's writes are one successful transaction; a second
+						// transaction then writes target t and is reverted. It is not a state change.
+						if strings.HasPrefix(reads, "failed-tx") && ri > 1 {
+							continue
+						}
 						in := newSLInst()
 						var ops []string
 						ops = append(ops, base.ops...)
@@ -186,6 +191,10 @@ func C10(c *mc.Ctx) {
 								block = append(block, "get "+f[1]+" "+f[2])
 							}
 							block = append(block, w.op)
+						}
+						if strings.HasPrefix(reads, "failed-tx") {
+							noise := map[string]string{"a": "set A a q", "ab": "set A ab q", "b": "set A b q", "bal": "bal A 77"}[strings.TrimPrefix(reads, "failed-tx:")]
+							block = append(append([]string{"snap"}, block...), "fin", "snap", noise, "rev 0")
 						}
 						okAll := true
 						for _, op := range ops {
@@ -212,7 +221,12 @@ func C10(c *mc.Ctx) {
 							refDiff = c10Diff(bm, in.cur)
 						} else if root.String() != ref {
 							kind := "order"
-							if !strings.Contains(refDesc, "residency="+resName[ri]) {
+							if strings.HasPrefix(reads, "failed-tx") {
+								kind = "reverted-write-of-a-failed-tx|storage"
+								if reads == "failed-tx:bal" {
+									kind = "reverted-write-of-a-failed-tx|balance"
+								}
+							} else if !strings.Contains(refDesc, "residency="+resName[ri]) {
 								kind = "residency"
 							} else if !strings.Contains(refDesc, "reads="+reads) {
 								kind = "reads"
@@ -280,7 +294,7 @@ func C10(c *mc.Ctx) {
 	c.Set("evaluations", evals+c.Get("tx_lists_checked")+c.Get("tx_field_perturbations")+c.Get("receipt_field_perturbations"))
 	c.Assume("memkv has goleveldb's observable semantics")
 	c.Set("distinct_nontrivial", c.Get("distinct_change_sets"))
-	c.Set("rule", "every set of <=N writes on distinct targets (N=3 quick, 4 thorough) over 8 targets x 1-3 values, from 3 base states, in every permutation x residency {cache,reopened,purged} x read pattern {none,before-each,all-first}; a case is non-trivial/distinct when its effective change set against the base (per target final value) is new")
+	c.Set("rule", "every set of <=N writes on distinct targets (N=3 quick, 4 thorough) over 8 targets x 1-3 values, from 3 base states, in every permutation x residency {cache,reopened,purged} x read pattern {none, before-each, all-first} / a following failed transaction whose write to one of 4 targets is reverted; a case is non-trivial/distinct when its effective change set against the base (per target final value) is new")
 	c.Set("state_root_groups", groups)
 	c.Sample(map[string]interface{}{"write_set": sets[len(sets)/2], "variants": "all permutations x {cache-resident,reopened,cache-purged} x reads {none,before-each,all-first}"})
 }
